@@ -1,11 +1,72 @@
 /-
-  C16 — Device lifecycle.  Source facts and (below) the lock-discipline theorems.
+  C16 — Device lifecycle: prompt termination, no leftovers, no races, no cross-talk.
+
+  * `C16_source_facts`       : the disconnect clean-up of `ProcessEvents` runs under `eventProcessMutex` (regenerated from
+                               events.go) — the repaired defect;
+  * `C16_table_disciplined`  : in the access table regenerated from package device (every access of a `*Device` field by each of
+                               the three goroutines of a device, with the mutexes held there — `Gen.deviceAccesses`), every
+                               pair of conflicting accesses from different goroutines has a mutex in common;
+  * `C16_no_race`            : hence, for programmes whose accesses are as in the table, no schedule ever has two conflicting
+                               accesses enabled at the same time (generic theorem `Lockset.no_race`: mutual exclusion as an
+                               invariant of every reachable state);
+  * `C16_writes_locked`      : no field is written without a device mutex, by any goroutine;
+  * `C16_independent`        : one step of a device is a function of that device's state and the event alone: the model has no
+                               shared state between devices, and the extractor finds no package-level variable of package
+                               device that is written outside `init` (`Gen.devicePackageWrites`).
+  Termination and leftovers are decided on the implementation (race-enabled runner, goroutine dump); the model-level argument
+  is: after the input stream ends `cancel()` is called, both helper goroutines test `ctx.Done()` in every iteration of
+  their loops, and every blocking call in those loops (connect, 250 ms timer, 10 ms sleep, UpdateLEDs on a local TCP socket,
+  receive from midiIn selected against ctx.Done()) returns — the TCP peer answering is an assumption.
+  Trusted: the extractor's walk (calls through the action tables are followed to every method expression `(*Device).X`).
 -/
+import HidiProofs.Lockset
+import Hidi.Engine
+import Hidi.Gen.Tables
 import Hidi.Gen.Evdev
 namespace Hidi.Props.C16
-open Hidi
+open Hidi Hidi.Lockset
 
-/-- the disconnect clean-up of `ProcessEvents` runs under `eventProcessMutex` (regenerated from events.go) -/
 theorem C16_source_facts : Gen.cleanupUnderEventMutex = true := by decide
+
+/-- the extractor understood every construct it met (no `?` rows) and found the three roots -/
+theorem C16_table_complete :
+    (Gen.deviceAccesses.all (fun r => r.2.1 ≠ "?")) = true ∧
+    (Gen.deviceAccesses.map (·.1)).eraseDups = ["ProcessEvents", "handleInputEvents", "handleOpenrgb"] := by
+  constructor <;> decide
+
+/-- **lock discipline of package device** -/
+theorem C16_table_disciplined : Disciplined Gen.deviceAccesses = true := by decide
+
+/-- no write without a device mutex -/
+theorem C16_writes_locked : (Gen.deviceAccesses.all (fun r => !r.2.2.1 || !r.2.2.2.isEmpty)) = true := by decide
+
+/-- **no race for any schedule** of goroutines whose accesses are those of the table -/
+theorem C16_no_race (init : Sys)
+    (hstart : ∀ i, (init i).held = [] ∧ Conforms Gen.deviceAccesses i [] (init i).prog)
+    (s : Sys) (hr : Reach init s) : ¬ Race s :=
+  no_race Gen.deviceAccesses C16_table_disciplined init hstart s hr
+
+/-- package device has no package-level variable that is written after initialisation: devices share no mutable state -/
+theorem C16_no_shared_package_state : Gen.devicePackageWrites = [] := by decide
+
+/-- **no cross-talk in the model**: the step function of a device takes that device's state and the event — two devices are
+    two values; nothing else is read or written -/
+theorem C16_independent (a b : Dev) (ea eb : Ev) :
+    let step2 := fun (p : Dev × Dev) => ((p.1.step ea).1, (p.2.step eb).1)
+    (step2 (a, b)).1 = (a.step ea).1 ∧ (step2 (a, b)).2 = (b.step eb).1 := ⟨rfl, rfl⟩
+
+/-! ### non-vacuity: a programme shaped like the event loop and one shaped like the LED loop conform to the table, and the
+    unlocked clean-up of the original code does not -/
+
+def evLoop : List Op := [.acq "eventProcessMutex", .access "noteTracker" true, .access "octave" true, .rel "eventProcessMutex"]
+def ledLoop : List Op := [.acq "eventProcessMutex", .access "octave" false, .access "noteTracker" false, .rel "eventProcessMutex"]
+
+example : Conforms Gen.deviceAccesses "ProcessEvents" [] evLoop := by
+  refine ⟨by simp, ⟨["eventProcessMutex"], by decide, by simp⟩, ⟨["eventProcessMutex"], by decide, by simp⟩, trivial⟩
+example : Conforms Gen.deviceAccesses "handleOpenrgb" [] ledLoop := by
+  refine ⟨by simp, ⟨["eventProcessMutex"], by decide, by simp⟩, ⟨["eventProcessMutex"], by decide, by simp⟩, trivial⟩
+
+/-- the pre-fix clean-up (a write to `noteTracker` with no mutex held) is not in the table: such a row would break discipline -/
+example : Disciplined (("ProcessEvents", "noteTracker", true, []) :: Gen.deviceAccesses) = false := by decide
 
 end Hidi.Props.C16
